@@ -238,4 +238,27 @@ def replay(payload):
                                  for a, b in zip(pos, pos[1:]))
                     if not ((erase and (left_flank or right_flank)) or in_gap):
                         bad.append((mg, erase, "removed region not allowed", l, r))
+    # filter flags: with filter_sites / filter_populations / filter_individuals = False nothing
+    # outside the deleted intervals may be dropped (mutation-free sites, unused rows)
+    t = ts.dump_tables()
+    t.sites.add_row(float(pos[0]) + 0.5, "0")          # mutation-free sites inside kept regions
+    t.sites.add_row(float(pos[-1]) - 0.5 if len(pos) > 1 else float(pos[0]) + 0.25, "0")
+    t.populations.add_row(metadata={"name": "unused", "description": None})
+    t.individuals.add_row()
+    t.sort()
+    t.build_index()
+    t.compute_mutation_parents()
+    ts2 = t.tree_sequence()
+    for erase in (True, False):
+        for mg in (3.0, 1e9):
+            out = tsdate.preprocess_ts(ts2, minimum_gap=mg, erase_flanks=erase, split_disjoint=False,
+                                       filter_sites=False, filter_populations=False,
+                                       filter_individuals=False)
+            gone = [p for p in ts2.sites_position if p not in set(out.sites_position)]
+            removed = [tr.interval for tr in out.trees() if tr.num_edges == 0]
+            lost = [p for p in gone if not any(l <= p < r for l, r in removed)]
+            if lost:
+                bad.append((mg, erase, "filter_sites=False but sites outside deleted intervals dropped", lost))
+            if out.num_populations != ts2.num_populations or out.num_individuals != ts2.num_individuals:
+                bad.append((mg, erase, "filter_populations/individuals=False but rows dropped"))
     return bool(bad), str(bad[:4])
